@@ -32,6 +32,7 @@ type simReq struct {
 }
 
 type simRule struct {
+	Period    int    `json:"period,omitempty"` // 0: at Tick; > 0: on every tick that is a multiple of Period
 	Tick      int    `json:"tick"`
 	Obj       string `json:"obj"`
 	Val       uint64 `json:"val"`
@@ -172,7 +173,7 @@ func runSim(q *simReq) (res simRes) {
 				}
 			}
 			for _, r := range q.Rules {
-				if r.Suspended || r.Tick != t {
+				if r.Suspended || (r.Period == 0 && r.Tick != t) || (r.Period > 0 && t%r.Period != 0) {
 					continue
 				}
 				var a, b int
